@@ -8,9 +8,12 @@ EXTENDS Codec, TLC
 
 Max2(a, b) == IF a > b THEN a ELSE b
 
-R(clause, sig, rs, hits) == [clause |-> clause, sig |-> sig, rs |-> rs, hits |-> hits]
+R(clause, sig, rs, hits) == [clause |-> clause, all |-> IF clause = "ok" THEN <<>> ELSE <<clause>>, sig |-> sig, rs |-> rs, hits |-> hits]
 NoSig == [x |-> 0]
 FirstBad(cs) == LET bad == SelectSeq(cs, LAMBDA c : ~c[2]) IN IF bad = <<>> THEN "ok" ELSE bad[1][1]
+(* every failing clause of the event is reported: each clause is a fact about the trace of its own *)
+RS(cs, sig, rs, hits) == LET bad == SelectSeq(cs, LAMBDA c : ~c[2]) IN
+  [clause |-> IF bad = <<>> THEN "ok" ELSE bad[1][1], all |-> [i \in 1..Len(bad) |-> bad[i][1]], sig |-> sig, rs |-> rs, hits |-> hits]
 
 NoReq == [svc |-> "none", fcv |-> 0, fcb |-> 0]
 NoOut == [p |-> 0, svc |-> "none"]
@@ -90,7 +93,7 @@ OnMasterTx(rs, e) ==
                         !.per[p].delivered = NoDelivery,
                         !.out = [p |-> p, svc |-> svc],
                         !.cycleSeq = Append(@, p), !.repeats = repeats]
-  IN R(FirstBad(cs), [svc |-> svc, p |-> p, fcv |-> fcv, fcb |-> fcb, lastsvc |-> pr.last.svc, answered |-> pr.answered], rs1, hits)
+  IN RS(cs, [svc |-> svc, p |-> p, fcv |-> fcv, fcb |-> fcb, lastsvc |-> pr.last.svc, answered |-> pr.answered], rs1, hits)
 
 (* ------------------------------------------------------------------ replies delivered by the environment *)
 DiagFlags(pdu) == [notready |-> (pdu[1] \div 2) % 2 = 1, cfgfault |-> (pdu[1] \div 4) % 2 = 1, prmfault |-> (pdu[1] \div 64) % 2 = 1,
@@ -170,7 +173,7 @@ OnDp(rs, e) ==
       hits == (IF hasEv THEN <<"C14.life", "C14.ev." \o ek>> ELSE <<>>) \o (IF e.cc THEN <<"C14.cycle">> ELSE <<>>)
               \o (IF \E p \in 1..rs.NP : e.pii[p] # rs.per[p].pii THEN <<"C04.in">> ELSE <<>>)
               \o (IF rs.faultsEnd /\ e.cc /\ allRunning THEN <<"C07.running">> ELSE <<>>)
-  IN R(FirstBad(cs), [ev |-> ek, p |-> ep], rs1, hits)
+  IN RS(cs, [ev |-> ek, p |-> ep], rs1, hits)
 
 OnEnd(rs, e) ==
   \* the run ends after Bdp + margin cycles: everything healthy must be running, no reply may wait for its event
